@@ -141,7 +141,14 @@ def build_variant(ci, node, rnd=None):
     v.uid = node["uid"]
     v.name = node["name"]
     v.type = node["type"]
-    v.arches = set(_shuffled(node["arches"], rnd))
+    order = _shuffled(node["arches"], rnd)
+    if rnd and len(order) >= 2 and rnd.random() < 0.4:
+        # the caller's own set object, completed after it was handed over: the variant holds the set it was given
+        mine = set(order[:1])
+        v.arches = mine
+        mine.update(order[1:])
+    else:
+        v.arches = set(order)
     if "release" in node:
         fill_release(v.release, node["release"])
     for cat in _shuffled(sorted(node["paths"]), rnd):
